@@ -354,9 +354,16 @@ func TestScopes(t *testing.T) {
 				break
 			}
 			in := gen.Render(rt, s, nil, mv).V
-			if rapid.IntRange(0, 2).Draw(rt, "mutateInput") == 0 {
+			switch rapid.IntRange(0, 3).Draw(rt, "mutateInput") {
+			case 0:
 				if m, what := gen.MutateRaw(rt, in); what != "" {
 					in = m
+				}
+			case 1:
+				// one leaf replaced by a string at the edge of the number / unit grammars
+				if m, what := gen.MutateLeaf(rt, in); what != "" {
+					in = m
+					ev.Class("input_with_hostile_leaf_string", 1)
 				}
 			}
 			c.Inputs = append(c.Inputs, in)
